@@ -92,7 +92,9 @@ AxisMapping(axes, vf, tol) ==
 
 (* ---- master locations ------------------------------------------------------------------------- *)
 NormalizedLoc(axes, loc) == TLCEval([a \in 1..Len(axes) |-> NormalizeDesign(axes[a], loc[a])])
-NormalizedLocs(axes, srcs) == TLCEval([m \in 1..Len(srcs) |-> NormalizedLoc(axes, srcs[m].loc)])
+NormalizedLocs(axes, srcs) ==
+  LET dts == TLCEval([a \in 1..Len(axes) |-> DesignTriple(axes[a])])      \* computed once per axis
+  IN TLCEval([m \in 1..Len(srcs) |-> TLCEval([a \in 1..Len(axes) |-> NormalizeValue(srcs[m].loc[a], dts[a])])])
 Defaults(nlocs) == {m \in 1..Len(nlocs) : AxesOf(nlocs[m]) = {}}
 Providers(srcs, k) == {m \in 1..Len(srcs) : Has(srcs[m].vals[k])}
 
@@ -100,20 +102,19 @@ Providers(srcs, k) == {m \in 1..Len(srcs) : Has(srcs[m].vals[k])}
 ItemEval(item, loc) == RAdd(item.base, EvalDeltas(item.rows, loc))
 MasterReproducedItem(item, nlocs, srcs, k) ==
   \A m \in Providers(srcs, k) : Within(ItemEval(item, nlocs[m]), srcs[m].vals[k], RHalf)
-MasterReproduced(axes, srcs, vf) ==
-  LET nlocs == NormalizedLocs(axes, srcs) IN
-  \A k \in 1..Len(vf.items) : MasterReproducedItem(vf.items[k], nlocs, srcs, k)
+MasterReproducedAt(nl, srcs, vf) == \A k \in 1..Len(vf.items) : MasterReproducedItem(vf.items[k], nl, srcs, k)
+MasterReproduced(axes, srcs, vf) == MasterReproducedAt(NormalizedLocs(axes, srcs), srcs, vf)
 
 (* a region "peaks at" a location: per axis the peak is the coordinate (a non-participating
    axis, peak 0, only for coordinate 0); slack for encodings that round peaks (F2Dot14) *)
 PeaksAt(reg, loc, slack) ==
   \A a \in 1..Len(loc) : IF TentIgnored(reg[a]) THEN RIsZero(loc[a]) ELSE Within(reg[a][2], loc[a], slack)
 RowsAvoid(rows, loc, slack) == \A r \in 1..Len(rows) : RIsZero(rows[r][2]) \/ ~PeaksAt(rows[r][1], loc, slack)
-SparseOmitted(axes, srcs, vf, slack) ==
-  LET nlocs == NormalizedLocs(axes, srcs) IN
+SparseOmittedAt(nl, srcs, vf, slack) ==
   \A k \in 1..Len(vf.items) : \A m \in (1..Len(srcs)) \ Providers(srcs, k) :
      (* unless a provider shares the location *)
-     (\E p \in Providers(srcs, k) : nlocs[p] = nlocs[m]) \/ RowsAvoid(vf.items[k].rows, nlocs[m], slack)
+     (\E p \in Providers(srcs, k) : nl[p] = nl[m]) \/ RowsAvoid(vf.items[k].rows, nl[m], slack)
+SparseOmitted(axes, srcs, vf, slack) == SparseOmittedAt(NormalizedLocs(axes, srcs), srcs, vf, slack)
 
 (* ---- the sub-model of an item: exact interpolation and the rounding budget --------------------- *)
 (* masters in MODEL order that supply item k: sequence of source indices *)
@@ -187,15 +188,18 @@ BuildItems(nlocs, order, srcs) == TLCEval([k \in 1..Len(srcs[1].vals) |-> BuildI
 
 (* SparseOK, numerically, for the font Build constructs: at a master that does not supply item k
    the font gives the sub-model's exact interpolation up to the rounding budget *)
-SparseInterpolates(nlocs, order, srcs, vf) ==
-  \A k \in 1..Len(vf.items) : \A m \in (1..Len(srcs)) \ Providers(srcs, k) :
-       LET sub == SubOrder(order, srcs, k)
-           locs == SubLocs(nlocs, sub)
+SparseInterpolates(nl, ord, srcs, vf) ==
+  \A k \in 1..Len(vf.items) :
+     LET absent == (1..Len(srcs)) \ Providers(srcs, k) IN
+     absent = {} \/
+       LET sub == SubOrder(ord, srcs, k)
+           locs == SubLocs(nl, sub)
            sups == ModelSupports(locs)
            W == DeltaWeights(ScalarMatrix(locs, sups))
-           sc == Scalars(sups, nlocs[m])
-           exact == Dot(sc, GetDeltas(W, SubVals(srcs, sub, k)))
-       IN Within(ItemEval(vf.items[k], nlocs[m]), exact, RoundingBudget(W, sc))
+           exactDeltas == GetDeltas(W, SubVals(srcs, sub, k))
+       IN \A m \in absent :
+            LET sc == Scalars(sups, nl[m])
+            IN Within(ItemEval(vf.items[k], nl[m]), Dot(sc, exactDeltas), RoundingBudget(W, sc))
 
 (* ---- Build as actions ------------------------------------------------------------------------------
    ds    the designspace [axes, srcs] (constant during a build)
@@ -233,9 +237,10 @@ BuildStep == Normalise \/ MakeModel \/ MakeItems \/ Assemble
 
 (* ---- properties of a finished build ------------------------------------------------------------ *)
 Built == pc = "done"
-InvMasterReproduced == Built => MasterReproduced(ds.axes, ds.srcs, vf)
+(* nlocs = NormalizedLocs(ds.axes, ds.srcs) by Normalise; the invariants read the variable *)
+InvMasterReproduced == Built => MasterReproducedAt(nlocs, ds.srcs, vf)
 InvAxisMapping == Built => AxisMapping(ds.axes, vf, RZero)
-InvSparseOK == Built => SparseOmitted(ds.axes, ds.srcs, vf, RZero) /\ SparseInterpolates(nlocs, order, ds.srcs, vf)
+InvSparseOK == Built => SparseOmittedAt(nlocs, ds.srcs, vf, RZero) /\ SparseInterpolates(nlocs, order, ds.srcs, vf)
 (* the model order starts with the default master and carries every source exactly once *)
 InvOrder == pc \in {"items", "assemble", "done"} =>
               /\ {order[i] : i \in 1..Len(order)} = 1..Len(ds.srcs) /\ Len(order) = Len(ds.srcs)
